@@ -406,6 +406,27 @@ def mode_history(spec):
                "detail": detail, "churn": [c[:2] for c in churn], "churn_reused_identities": len(churn) - len({c[2] for c in churn}), "distinct_identities": len({id(cv) for _, cv in convs}), "n_convs": len(convs)}, sys.stdout, default=repr)
 
 
+def registry_signature(cv):
+    """what hooks a converter has registered: the exact-union registry keys and the sizes of the predicate / class dispatch tables (cattrs
+    24.1 internals, read defensively: an attribute that is not there contributes nothing)"""
+    sig = {}
+    try:
+        sig["unions"] = sorted(repr(k) for k in getattr(cv, "_union_struct_registry", {}))
+    except Exception:
+        pass
+    for name in ("_structure_func", "_unstructure_func"):
+        d = getattr(cv, name, None)
+        try:
+            sig[name + ".predicates"] = len(d._function_dispatch._handler_pairs)
+        except Exception:
+            pass
+        try:
+            sig[name + ".classes"] = len(d._single_dispatch.registry)
+        except Exception:
+            pass
+    return sig
+
+
 def mode_stress(spec):
     attrs.resolve_types = resolve_wrapper
     from lsprotocol import _hooks, converters
@@ -416,6 +437,7 @@ def mode_stress(spec):
     barrier = threading.Barrier(n)
     created = threading.Barrier(n, action=lambda: sys.setswitchinterval(default_interval))
     res = [None] * n
+    cvs = [None] * n
 
     def worker(i):
         TL.counting = True
@@ -423,6 +445,7 @@ def mode_stress(spec):
         cv = None
         try:
             cv = converters.get_converter()
+            cvs[i] = cv
             res[i] = ["ok", ""]
         except BaseException as e:
             res[i] = ["exc", type(e).__name__, str(e)[:200]]
@@ -443,6 +466,18 @@ def mode_stress(spec):
         t.start()
     for t in ths:
         t.join(120)
+    # every converter created during the race must have registered what a converter created afterwards, alone, registers
+    try:
+        ref_sig = registry_signature(converters.get_converter())
+        for i, cv in enumerate(cvs):
+            if cv is not None and res[i] and res[i][0] == "ok":
+                sg = registry_signature(cv)
+                if sg != ref_sig:
+                    missing = sorted(set(ref_sig.get("unions", [])) - set(sg.get("unions", [])))[:3]
+                    res[i] = ["exc", "RegistryMismatch", "thread %d: hooks registered differ from a converter created alone: missing unions %s; sizes %s vs %s"
+                              % (i, missing, {k: v for k, v in sg.items() if k != "unions"}, {k: v for k, v in ref_sig.items() if k != "unions"})]
+    except Exception as e:
+        res.append(["exc", "RegistryCheckFailed", str(e)[:200]])
     flag, unresolved = ready_state(_hooks, T)
     json.dump({"results": res, "resolve_calls": CTL.resolve_calls, "flag": flag, "unresolved": unresolved}, sys.stdout)
 
